@@ -31,6 +31,9 @@ type C05Step struct {
 	Submit *kit.SubmitStep `json:"submit,omitempty"`
 	Pool   *PoolStep       `json:"pool,omitempty"`
 	Mine   bool            `json:"mine,omitempty"`
+	// Quiet: nothing is asked of the pool after this step (no listing, no
+	// audit); the next step meets whatever lazily maintained state it left.
+	Quiet bool `json:"quiet,omitempty"`
 }
 
 // C05Case: fork tree + interleaved steps.
@@ -55,9 +58,9 @@ func genC05(t *rapid.T) C05Case {
 	for i := range sub {
 		st := sub[i]
 		st.Validated = false
-		c.Steps = append(c.Steps, C05Step{Submit: &st})
+		c.Steps = append(c.Steps, C05Step{Submit: &st, Quiet: kit.Chance(t, 30, "quiet")})
 		for kit.Chance(t, 45, "poolroll") {
-			ps := &PoolStep{V2: kit.Chance(t, 65, "v2"), UseNext: kit.Chance(t, 35, "usenext"), Blind: kit.Chance(t, 15, "blind")}
+			ps := &PoolStep{V2: kit.Chance(t, 65, "v2"), UseNext: kit.Chance(t, 35, "usenext"), Blind: kit.Chance(t, 30, "blind")}
 			if kit.Chance(t, 30, "stale") {
 				ps.At = rapid.IntRange(1, 12).Draw(t, "at")
 			}
@@ -68,7 +71,7 @@ func genC05(t *rapid.T) C05Case {
 				in.Eph = kit.Chance(t, 50, "eph")
 				ps.Intents = append(ps.Intents, in)
 			}
-			c.Steps = append(c.Steps, C05Step{Pool: ps})
+			c.Steps = append(c.Steps, C05Step{Pool: ps, Quiet: kit.Chance(t, 20, "quiet")})
 		}
 		if kit.Chance(t, 12, "mineroll") {
 			c.Steps = append(c.Steps, C05Step{Mine: true})
@@ -281,10 +284,9 @@ func runC05(c C05Case, cs *kit.CaseStats) error {
 			if ps.V2 && h < allow || !ps.V2 && h >= req {
 				continue
 			}
-			pool1, pool2 := node.CM.PoolTransactions(), node.CM.V2PoolTransactions()
 			bb := kit.NewBlockBuilder(base.Ledger)
 			if !ps.Blind && base == tip {
-				bb.Absorb(pool1, pool2)
+				bb.Absorb(node.CM.PoolTransactions(), node.CM.V2PoolTransactions())
 				bb.DropEphemeral()
 			}
 			var set1 []types.Transaction
@@ -456,6 +458,10 @@ func runC05(c C05Case, cs *kit.CaseStats) error {
 			tracked = keep
 		}
 
+		if st.Quiet && si < len(c.Steps)-1 {
+			cs.Class("quiet-step")
+			continue
+		}
 		// ---- oracle (i)+(ii): validity and minability of what the pool reports
 		tip = node.TipNode()
 		if tip == nil || tip.Ledger == nil {
